@@ -39,9 +39,9 @@ def prefixes(mode64, tier):
     if mode64:
         p += [b"\x49"]
     if tier != "quick":
-        p += [b"\x67", b"\xf3", b"\x2e"]
+        p += [b"\x67", b"\xf3"]
         if mode64:
-            p += [b"\x48", b"\x41", b"\x66\x48", b"\x4c"]
+            p += [b"\x48", b"\x4c"]
         else:
             p += [b"\x66\x67"]
     return p
@@ -57,13 +57,12 @@ def items(tier, seed):
         si = mod.disassemble.iset()
         nspecs = len(isa.spec_sets(mod)[si][1])
         idx = list(range(nspecs))
-        if tier == "quick":
-            rnd.shuffle(idx)
-            idx = sorted(idx[: max(4, nspecs // 40)])
-        per = 2 if tier == "quick" else 6
+        rnd.shuffle(idx)
+        idx = sorted(idx[: max(4, nspecs // 40)] if tier == "quick" else idx[: max(12, nspecs // 20)])
+        per = 2
         for i in range(0, len(idx), per):
             out.append((cpu, si, idx[i:i + per], tier))
-        if tier == "quick":
+        if True:
             # every other spec: a shallow exploration (a handful of decode paths) behind no prefix (and REX.WB in 64-bit mode)
             rest = [k for k in range(nspecs) if k not in set(idx)]
             for i in range(0, len(rest), 30):
@@ -112,7 +111,7 @@ def check_spec(cpu, mode64, spec, pfx, n, tier, res):
     shallow = tier == "quick-shallow"
     if shallow:
         tier = "quick"
-    E, paths = decx.explore(cpu, {}, n, focus=spec, prefix_bytes=pfx, max_paths=(8 if shallow else 600) if tier == "quick" else 4000, budget_s=(3 if shallow else 40) if tier == "quick" else 300)
+    E, paths = decx.explore(cpu, {}, n, focus=spec, prefix_bytes=pfx, max_paths=(8 if shallow else 600) if tier == "quick" else 1500, budget_s=(3 if shallow else 40) if tier == "quick" else 60)
     res["explorations"] += 1
     res["states"] += len(paths)
     res["transitions"] += E.stats["forks"]
@@ -120,7 +119,7 @@ def check_spec(cpu, mode64, spec, pfx, n, tier, res):
         res["incomplete_explorations"] += 1
     label = "%s %s prefix=%s" % (cpu.rsplit(".", 1)[1], isa.spec_id(spec), pfx.hex() or "-")
     nval = 2 if shallow else 0  # the shallow pass calls the reference tools only on a disagreement
-    budget = time.time() + (60 if tier == "quick" else 600)
+    budget = time.time() + (60 if tier == "quick" else 120)
     for p in paths:
         if p.outcome != "ins" or p.length is None:
             continue
@@ -267,8 +266,8 @@ def coverage(agg, tier):
         "witnesses_outside_the_statement": {"reference says outside": agg.get("outside_reference", 0), "tools disagree or reject": agg.get("tools_disagree_or_reject", 0), "amoco does not decode": agg.get("undecoded_by_amoco", 0)},
         "reference_tools": {"objdump": TOOLS.OBJDUMP, "llvm-mc": TOOLS.LLVMMC},
         "rule": "state = one path of cpu.disassemble for a focused spec behind a prefix; obligation = on one sub-path of the reference decoder under that path condition: reference length == amoco length (and displacement equality for relative branches), for all bytes of the sub-path; traces validated = proven sub-path witnesses on which amoco, objdump and llvm-mc agree",
-        "bounds": {"specs": "quick: 1/40 of the shipped x86 and x64 specs (seeded) in depth, every other spec shallowly (<= 8 decode paths, no prefix / REX.WB); thorough: all in depth", "prefixes": "quick: none, 66, REX.WB; thorough: + 67, F3, 2E, REX.W, REX.B, 66+REX.W, REX.WR, 66+67",
-                   "window": "14 bytes including the prefix", "paths": "quick <= 600 decode paths and 40 s per focus, 30 s per reference exploration; thorough <= 4000 / 300 s",
+        "bounds": {"specs": "quick: 1/40 of the shipped x86 and x64 specs (seeded) in depth, every other spec shallowly (<= 8 decode paths, no prefix / REX.WB); thorough: 1/20 in depth, every other spec shallowly", "prefixes": "quick: none, 66, REX.WB; thorough: + 67, F3, REX.W, REX.WR (64-bit) / 66+67 (32-bit)",
+                   "window": "14 bytes including the prefix", "paths": "quick <= 600 decode paths and 40 s per focus, 30 s per reference exploration; thorough <= 1500 / 60 s",
                    "outside": "see assumptions; paths beyond the caps (counted as incomplete)"},
         "stubs": symx.STUBS,
         "exhaustive": False,
